@@ -205,8 +205,9 @@ def _run(a, mod, prop, tier, seed, known, workdir, t0) -> int:
             jobs.append(dict(base, mode="exhaustive", shard=s, nshards=nsh, origin="exhaustive"))
     for vi, v in enumerate(variants):
         for s in range(per_variant):
+            extra = {"seed_salt": vi * 7919} if getattr(mod, "VARIANT_DISTINCT_SEEDS", False) else {}
             jobs.append(dict(base, mode="search", shard=s, nshards=per_variant, env=v.get("env"),
-                             args=dict(v.get("args") or {}, variant=v.get("name", str(vi))), origin=f"search:{v.get('name', vi)}:{s}"))
+                             args=dict(v.get("args") or {}, variant=v.get("name", str(vi)), **extra), origin=f"search:{v.get('name', vi)}:{s}"))
     results = run_jobs(jobs, workdir, a.jobs)
     for j, r in zip(jobs, results):
         r["origin"] = j
